@@ -17,11 +17,15 @@ pub fn literals() -> Vec<J> {
     let mut v: Vec<J> = Vec::new();
     let p = |k: usize| Nat::pow2(k); let m1 = |k: usize| Nat::pow2(k).sub(&Nat::from_u64(1)); let p1 = |k: usize| Nat::pow2(k).add(&Nat::from_u64(1));
     for n in ["0", "1", "255", "9007199254740991", "9007199254740992", "9007199254740993", "18446744073709551615", "18446744073709551616", "340282366920938463463374607431768211456"] { v.push(J::n(n)); }
+    // integers that no double represents exactly, in every magnitude class and both notations: taken exactly or refused
+    for n in ["9007199254740993.0", "9007199254740993e0", "18446744073709551617", "20000000000000000001", "13370000000000000001", "123456789012345678901234567890", "1e23", "1.234567890123456789e18", "1234567890123456789.0", "18446744073709551615.0", "1.8446744073709551615e19", "340282366920938463463374607431768211457", "99999999999999999999999", "1e22", "115792089237316195423570985008687907853269984665640564039457584007913129639935", "1.157920892373162e77"] { v.push(J::n(n)); }
+    // non-integers that ARE doubles, one or two units in the last place away from an integer, and halves near 2^52
+    for n in ["1.0000000000000002", "0.9999999999999999", "7.000000000000001", "6.999999999999999", "21000.000000000004", "20999.999999999996", "21000.000000000007", "2251799813685248.5", "4503599627370495.5", "2251799813685247.5", "1125899906842624.25", "2100000.0000000005e-2", "-7.000000000000001", "255.00000000000003", "18014398509481.984"] { v.push(J::n(n)); }
     for n in ["1.0", "1e3", "1E3", "0.1e1", "1e15", "1e16", "1e30", "100e-2", "1.000", "12.5e1", "1e+2", "0.0", "0e0", "-0", "-0.0", "1e77", "1e78", "2e77"] { v.push(J::n(n)); }
     for n in ["-1", "-9223372036854775808", "-9223372036854775809", "-1.0", "-1e3", "-255", "0.5", "1.5", "1e-1", "-0.5", "4503599627370497.3", "1000000000000000.01", "1e-400", "0.1e-5", "123456789012345678901234567890.5", "1e400", "-1e400"] { v.push(J::n(n)); }
     for n in [Nat::zero(), Nat::from_u64(1), p(64), p(255), m1(256), p(256), p1(256), p(300)] { v.push(J::Str(n.to_dec())); v.push(J::Str(format!("0x{}", n.to_hex()))); v.push(J::Str(format!("0x{}", n.to_hex().to_uppercase()))); }
     v.push(J::Num(m1(256).to_dec())); v.push(J::Num(p(256).to_dec()));
-    for s in ["", "0x", "-1", "-0x1", "-0", "1.5", "abc", "0xg", "0x-1", "--1", "0x 1", "1,000", "١", "+1", "01", "0x01", "0x00", "0X1", "0b11", "0o17", " 1", "1 ", "1.0", "1e3", "1_000", "+0x1", "0x0000000000000000000000000000000000000000000000000000000000000000ff"] { v.push(J::s(s)); }
+    for s in ["", "0x", "-1", "-0x1", "-0", "1.5", "abc", "0xg", "0x-1", "--1", "0x 1", "1,000", "١", "\u{ff11}\u{ff12}", "\u{b2}", "0x\u{ff41}", "\u{2460}", "+1", "01", "0x01", "0x00", "0X1", "0b11", "0o17", " 1", "1 ", "1.0", "1e3", "1_000", "+0x1", "0x0000000000000000000000000000000000000000000000000000000000000000ff"] { v.push(J::s(s)); }
     v.push(J::Null); v.push(J::Bool(true)); v.push(J::Bool(false)); v.push(J::Arr(vec![])); v.push(J::Arr(vec![J::n("1")])); v.push(J::Obj(vec![]));
     v
 }
@@ -32,7 +36,7 @@ pub fn slots() -> Vec<(Kind, bool, &'static str, usize)> { // (kind, with chain 
     v
 }
 fn lit_shape(j: &J) -> String {
-    match j { J::Num(l) => format!("json-{}{}{}", if l.starts_with('-') { "negative-" } else { "" }, if l.contains(['.', 'e', 'E']) { "float" } else { "int" }, match refmodel::json::parse_number(l) { Some(refmodel::json::NumVal::Frac { .. }) => format!("-fraction{}", if l.parse::<f64>().map_or(false, |f| f.fract() == 0.0) { "-integral-as-f64" } else { "" }), Some(refmodel::json::NumVal::Int { mag, .. }) => format!("-bits<={}", [53usize, 64, 256, 1000].iter().find(|b| mag < Nat::pow2(**b)).unwrap()), _ => "-huge".into() }),
+    match j { J::Num(l) => format!("json-{}{}{}", if l.starts_with('-') { "negative-" } else { "" }, if l.contains(['.', 'e', 'E']) { "float" } else { "int" }, match refmodel::json::parse_number(l) { Some(refmodel::json::NumVal::Frac { .. }) => format!("-fraction{}", if serde_json::from_str::<f64>(l).map_or(false, |f| f.fract() == 0.0) { "-integral-as-f64" } else { "" }) /* the double the project's JSON parser (serde_json, default features) delivers for the literal */, Some(refmodel::json::NumVal::Int { mag, .. }) => format!("-bits<={}", [53usize, 64, 256, 1000].iter().find(|b| mag < Nat::pow2(**b)).unwrap()), _ => "-huge".into() }),
         J::Str(s) => format!("string-{}", if s.starts_with('-') { "negative" } else if s.starts_with("0x") { "0x" } else if s.bytes().all(|b| b.is_ascii_digit()) && !s.is_empty() { "decimal" } else { "other" }), o => format!("json-{}", o.kind_name()) }
 }
 pub fn run(ctx: &Ctx) {
@@ -42,7 +46,7 @@ pub fn run(ctx: &Ctx) {
     ctx.sweep("numeric-literals", "every numeric field slot of every kind x the literal alphabet (JSON ints/floats/negatives/fractions, decimal/0x strings up to 2^300, malformed strings, wrong JSON kinds), one deviating field per document", (sl.len() * lits.len()) as u64, |i| {
         let (kind, wc, field, pos) = sl[i as usize / lits.len()]; let lit = &lits[i as usize % lits.len()];
         let tx = txjson::template(kind, wc); let mut f = txjson::tx_fields(&tx, Spell::Auto); txjson::set(&mut f, field, Some(lit.clone()));
-        let text = J::Obj(f).to_text();
+        let text = J::Obj(f).reordered(i % 3).to_text();
         // legacy chainId: null means "no chain id"; chain ids whose v overflows 256 bits are C17's business
         let class: Class<Option<Nat>> = if field == "chainId" && kind == Kind::Legacy && *lit == J::Null { Class::Accept(None) } else { classify_ranged(lit, 256, false).map(|v| Some(v.mag)) };
         let class = match class { Class::Accept(Some(v)) | Class::Unc(Some(v)) if field == "chainId" && kind == Kind::Legacy && v > Nat::pow2(255).sub(&Nat::from_u64(19)) => { ctx.eval("legacy-chain-id-beyond-v-range:skipped"); return; } c => c };
